@@ -4,6 +4,7 @@ package main
 
 import (
 	"os"
+	"sort"
 	"fmt"
 	"go/types"
 	"strings"
@@ -22,7 +23,10 @@ func (fx *FnCtx) entrySort(e *modEntry) (key, srt string) {
 }
 
 // havocHeaps replaces the heaps in m by fresh symbols (st modified in place). pre is the state before.
-func (fx *FnCtx) havocHeaps(st *State, m *Modset) {
+func (fx *FnCtx) havocHeaps(st *State, m *Modset) { fx.havocHeapsR(st, m, nil) }
+
+// havocHeapsR: resolve gives the current value of local variables (for precise frames of writes through locals)
+func (fx *FnCtx) havocHeapsR(st *State, m *Modset, resolve func(ssa.Value) (Term, bool)) {
 	pre := st.clone()
 	if m.top {
 		st.base = fx.s.fresh("hb")
@@ -44,6 +48,24 @@ func (fx *FnCtx) havocHeaps(st *State, m *Modset) {
 			}
 			h := fx.s.freshConst("Hh", "(Array Ref "+srt+")")
 			st.heaps[key] = h
+			if !e.otherRoots && len(e.allocRoots) > 0 && resolve != nil && !e.isMap {
+				// every write to an older cell goes through one of these locals: all other cells are unchanged
+				var excl []Term
+				okAll := true
+				for a := range e.allocRoots {
+					t, ok := resolve(a)
+					if !ok {
+						okAll = false
+						break
+					}
+					excl = append(excl, fmt.Sprintf("(not (= (obj r) (obj %s)))", t))
+				}
+				if okAll {
+					sort.Strings(excl)
+					fx.s.assume("true", fmt.Sprintf("(forall ((r Ref)) (! (=> (and (<= (obj r) %s) %s) (= (select %s r) (select %s r))) :pattern ((select %s r))))", pre.alloc, and(excl...), h, old, h))
+					continue
+				}
+			}
 			if !e.allFields && !e.isMap {
 				// only some top-level fields of pre-existing cells may change
 				if _, isStruct := e.typ.Underlying().(*types.Struct); isStruct && !isTimeTime(e.typ) {
